@@ -10,6 +10,7 @@
 package c06
 
 import (
+	"bytes"
 	"fmt"
 	"os"
 	"os/exec"
@@ -40,6 +41,10 @@ type Case struct {
 	Big    bool   // kill modes
 	Frac   int    // kill-delay: per-mille of the measured full duration
 	When   int    // kill-syscall: k-th write-class syscall (per thread)
+	// Torn: non-zero adds, between every two consecutive states of the output
+	// file, states in which the next write burst has only partly reached the
+	// file (commit-points mode); the value selects where each burst is cut.
+	Torn uint64
 	// File: what the crashed process left (only filled in when a kill-mode
 	// violation is reported, so that replay needs no process and no timing).
 	File []byte
@@ -50,6 +55,9 @@ func (c *Case) Summary() string {
 	switch c.Mode {
 	case "commit-points":
 		s += " writer=" + fix.WriterName[c.Writer]
+		if c.Torn != 0 {
+			s += fmt.Sprintf(" torn-bursts=%#x", c.Torn)
+		}
 	case "kill-delay":
 		s += fmt.Sprintf(" big=%v kill-at=%d‰ of full duration", c.Big, c.Frac)
 	case "kill-syscall":
@@ -67,6 +75,12 @@ var openCfgs = []fix.OpenCfg{{CacheCap: -1}, {Preload: true, CacheCap: -1}}
 // checkCrashFile is the oracle for one post-crash file: OpenIndex must reject
 // it with an error, or accept it and then answer like the complete index.
 func checkCrashFile(dir string, content []byte, d *model.Data, uniq string, what string) (accepted bool, err error) {
+	// a file that kills the process when it is opened (bus error, segmentation
+	// fault: neither can be recovered) leaves this case behind for the driver
+	if curData != nil && len(content) <= 4<<20 {
+		evid.Inflight(prop, "crash", &Case{Data: *curData, Mode: "file", File: content}, what+fmt.Sprintf(": left-over file of %d bytes", len(content)))
+		defer evid.ClearInflight(prop, "crash")
+	}
 	for _, oc := range openCfgs {
 		// every crash file of a case is examined at ONE path, at which the
 		// complete index was opened before (see primePath): anything the process
@@ -131,11 +145,15 @@ type facts struct {
 	points    int
 	midpoints int // crash points strictly between first and last commit
 	partial   bool
+	torn      int // states with a partly written burst
 	killedAt  string
 }
 
+var curData *gen.DataSpec
+
 func oracle(c *Case) (facts, error) {
 	var f facts
+	curData = &c.Data
 	rows := c.Data.Rows()
 	d := model.NewData(rows)
 	uniq := c.Data.UniqueCol()
@@ -216,7 +234,86 @@ func commitPoints(c *Case, dir string, rows []model.Row, d *model.Data, uniq str
 			return f, fmt.Errorf("the completely written file (after %s) is rejected by OpenIndex", s.site)
 		}
 	}
+	if c.Torn != 0 {
+		var prev []byte
+		prevSite := ""
+		k := uint64(0)
+		for _, s := range all {
+			if s.content == nil {
+				continue
+			}
+			if prev != nil && !bytes.Equal(prev, s.content) {
+				for _, ts := range tornStates(prev, s.content, c.Torn+k) {
+					k++
+					f.torn++
+					if _, err := checkCrashFile(dir, ts.content, d, uniq, fmt.Sprintf("write burst between (%s) and (%s) cut short: %s", prevSite, s.site, ts.site)); err != nil {
+						return f, err
+					}
+				}
+			}
+			prev, prevSite = s.content, s.site
+		}
+	}
 	return f, nil
+}
+
+// tornStates models a process that dies inside the burst of writes that takes
+// the file from content a to content b.  bbolt writes a burst in ascending
+// page order with the two meta pages (0 and 1) last, the very first burst
+// (initialisation of an empty file) as one write of four pages starting at
+// page 0; a kill cuts a burst, and a single write, at a page boundary.  The
+// file may or may not have been extended to its new length beforehand.
+func tornStates(a, b []byte, seed uint64) []snap {
+	const ps = 4096
+	var out []snap
+	if len(a) == 0 {
+		// first write: every page prefix, and one cut inside a page
+		for n := ps; n < len(b); n += ps {
+			out = append(out, snap{fmt.Sprintf("first %d of %d bytes of the first write", n, len(b)), append([]byte{}, b[:n]...)})
+		}
+		if len(b) > 1 {
+			n := 1 + int(seed%uint64(len(b)-1))
+			out = append(out, snap{fmt.Sprintf("first %d of %d bytes of the first write", n, len(b)), append([]byte{}, b[:n]...)})
+		}
+		return out
+	}
+	page := func(x []byte, i int) []byte {
+		lo, hi := i*ps, (i+1)*ps
+		if lo >= len(x) {
+			return nil
+		}
+		if hi > len(x) {
+			hi = len(x)
+		}
+		return x[lo:hi]
+	}
+	var changed []int
+	for i := 2; i*ps < len(b); i++ {
+		if !bytes.Equal(page(a, i), page(b, i)) {
+			changed = append(changed, i)
+		}
+	}
+	if len(changed) == 0 {
+		return nil
+	}
+	for v := 0; v < 2; v++ {
+		h := (seed + uint64(v)) * 0x9E3779B97F4A7C15
+		j := int((h >> 8) % uint64(len(changed)+1)) // data pages that made it
+		grown := h&1 == 0
+		x := append([]byte{}, a...)
+		if grown && len(b) > len(x) {
+			x = append(x, make([]byte, len(b)-len(x))...)
+		}
+		for _, i := range changed[:j] {
+			pg := page(b, i)
+			if need := i*ps + len(pg); need > len(x) {
+				x = append(x, make([]byte, need-len(x))...)
+			}
+			copy(x[i*ps:], pg)
+		}
+		out = append(out, snap{fmt.Sprintf("%d of %d changed data pages written, meta pages not yet, file extended beforehand: %v", j, len(changed), grown), x})
+	}
+	return out
 }
 
 var writeClass = "pwrite64,fdatasync,fsync,ftruncate,write"
@@ -378,6 +475,10 @@ func run(t interface{ Fatalf(string, ...any) }, c *Case) {
 	}
 	evid.Note("crash_points_examined", int64(f.points))
 	evid.Note("crash_points_between_first_and_last_commit", int64(f.midpoints))
+	evid.Note("torn_write_states_examined", int64(f.torn))
+	if f.torn > 0 {
+		cl = append(cl, "torn-bursts")
+	}
 	evid.Case(nt, sum+" "+f.killedAt, cl...)
 	if err != nil {
 		fix.Fail(t, prop, "crash", c, c.Summary(), err)
@@ -417,7 +518,7 @@ func prelude(t *testing.T) {
 		for w := 0; w < fix.NWriters; w++ {
 			spec := gen.DataSpec{Recipe: &gen.Recipe{N: n, Cols: []gen.ColSpec{
 				{Name: "u", Prefix: "r", Kind: gen.KUnique}, {Name: "k", Kind: gen.KConst, Prefix: "all"}}}}
-			run(t, &Case{Data: spec, Mode: "commit-points", Writer: w})
+			run(t, &Case{Data: spec, Mode: "commit-points", Writer: w, Torn: uint64(n + 1)})
 		}
 	}
 	// more than 1 MiB of bitmap data (about 75,000 distinct values): writers
@@ -431,7 +532,7 @@ func prelude(t *testing.T) {
 		for w := 0; w < fix.NWriters; w++ {
 			spec := gen.DataSpec{Recipe: &gen.Recipe{N: n, Cols: []gen.ColSpec{
 				{Name: "a", Kind: gen.KMod, K: 3, Prefix: "v"}, {Name: "u", Prefix: "r", Kind: gen.KUnique}}}}
-			run(t, &Case{Data: spec, Mode: "commit-points", Writer: w})
+			run(t, &Case{Data: spec, Mode: "commit-points", Writer: w, Torn: uint64(n + 1)})
 		}
 	}
 }
@@ -440,7 +541,7 @@ func TestQuick(t *testing.T) {
 	fix.Pinned(t, prop, replay)
 	prelude(t)
 	fix.Check(t, "commit-points", 12, func(rt *rapid.T) {
-		run(rt, &Case{Data: drawData(rt, 3100), Mode: "commit-points", Writer: rapid.IntRange(0, fix.NWriters-1).Draw(rt, "writer")})
+		run(rt, &Case{Data: drawData(rt, 3100), Mode: "commit-points", Writer: rapid.IntRange(0, fix.NWriters-1).Draw(rt, "writer"), Torn: rapid.Uint64().Draw(rt, "torn")})
 	})
 	fix.Check(t, "kill-syscall", 25, func(rt *rapid.T) {
 		run(rt, &Case{Data: drawData(rt, 2500), Mode: "kill-syscall", Big: rapid.Bool().Draw(rt, "big"), When: rapid.IntRange(1, 40).Draw(rt, "when")})
@@ -477,7 +578,7 @@ func TestThorough(t *testing.T) {
 		prelude(t)
 	}
 	fix.Check(t, "commit-points", 60, func(rt *rapid.T) {
-		run(rt, &Case{Data: drawData(rt, 3100), Mode: "commit-points", Writer: rapid.IntRange(0, fix.NWriters-1).Draw(rt, "writer")})
+		run(rt, &Case{Data: drawData(rt, 3100), Mode: "commit-points", Writer: rapid.IntRange(0, fix.NWriters-1).Draw(rt, "writer"), Torn: rapid.Uint64().Draw(rt, "torn")})
 	})
 	fix.Check(t, "kill-syscall", 200, func(rt *rapid.T) {
 		run(rt, &Case{Data: drawData(rt, 3100), Mode: "kill-syscall", Big: rapid.Bool().Draw(rt, "big"), When: rapid.IntRange(1, 60).Draw(rt, "when")})
